@@ -294,6 +294,234 @@ theorem C09_client_cutoff_any_reply_fails : ¬ ClientCutoffAnyReply := by
   revert this
   decide
 
+/-! ### A caller that polls late: the deadline counts from dispatch -/
+
+private theorem later_eq (a b : Nat) : Spec.Timeout.later a b = max a b := by
+  unfold Spec.Timeout.later; split <;> omega
+
+private theorem lateCut_answer_spec (m l : Option Nat) (b : Nat) :
+    asExpect (lateCut m (answer l) b) ∈ Spec.Timeout.lateExpected' m l b := by
+  unfold Spec.Timeout.lateExpected' Spec.Timeout.later
+  cases m with
+  | none =>
+    cases l with
+    | none => simp [lateCut, answer, Done.readyBy, asExpect]
+    | some l =>
+      by_cases h : l ≤ b <;>
+        simp [lateCut, answer, Done.readyBy, Done.pickedUpAt, asExpect, h]
+  | some m =>
+    cases l with
+    | none =>
+      by_cases h : m ≤ b <;> simp [lateCut, answer, Done.readyBy, cutAt, asExpect, h]
+    | some l =>
+      by_cases h1 : l ≤ b <;> by_cases h2 : m ≤ b <;> by_cases h3 : l ≤ m <;>
+        by_cases h4 : m < l <;> by_cases h5 : b < l <;>
+        simp [lateCut, answer, Done.readyBy, Done.pickedUpAt, cutAt, asExpect, h1, h2, h3, h4, h5] <;>
+        omega
+
+/-- The `GrpcTimeout` future, created at dispatch and first polled at ANY later time `b`, around
+anything that answers after `latency` or never, for every timeout (or none): what the caller
+observes is one of the observations the spec accepts — the call's own result at `max latency b`
+if it finished by the deadline; CANCELLED "Timeout expired" at `max T b` if it is still running
+then; either of the two, at `b`, if it finished after the deadline while nobody was polling
+(`T < latency ≤ b`: the caller cannot tell, the property does not say). -/
+theorem C09_late_poll_meets_spec (T latency : Option Nat) (b : Nat) :
+    asExpect (latePoll T latency b) ∈ Spec.Timeout.lateExpected' T latency b :=
+  lateCut_answer_spec T latency b
+
+/-- The same with the min rule in front (header and configured timeout, either possibly absent),
+against the spec's own fold over the deadlines present. -/
+theorem C09_late_stage_meets_spec (h c l : Option Nat) (b : Nat) :
+    asExpect (lateStage h c (answer l) b) ∈ Spec.Timeout.lateExpected [h, c] l b := by
+  rw [lateStage, Spec.Timeout.lateExpected, shortest_pair]
+  exact lateCut_answer_spec _ l b
+
+/-- A caller that polls at once (`b = 0`) is the case the earlier theorems are about: the model
+is the plain race and the spec accepts exactly the one observation `expected'` names. -/
+theorem C09_late_poll_prompt (T latency : Option Nat) :
+    latePoll T latency 0 = cutAt T (answer latency) ∧
+    Spec.Timeout.lateExpected' T latency 0 = [Spec.Timeout.expected' T latency] := by
+  unfold Spec.Timeout.lateExpected' Spec.Timeout.later Spec.Timeout.expected'
+  cases T with
+  | none =>
+    cases latency with
+    | none => simp [latePoll, lateCut, answer, Done.readyBy, cutAt]
+    | some l =>
+      by_cases h1 : l = 0 <;>
+        simp [latePoll, lateCut, answer, Done.readyBy, Done.pickedUpAt, cutAt, h1]
+  | some t =>
+    cases latency with
+    | none => by_cases h1 : t = 0 <;> simp [latePoll, lateCut, answer, Done.readyBy, cutAt, h1]
+    | some l =>
+      by_cases h : t < l <;> by_cases h0 : l = 0 <;> by_cases h1 : t = 0 <;> by_cases h3 : l ≤ t <;>
+        simp [latePoll, lateCut, answer, Done.readyBy, Done.pickedUpAt, cutAt, h, h0, h1, h3] <;>
+        first | omega | (have : 0 < l := by omega
+                         simp [this])
+
+/-- The deadline counts from DISPATCH: a call that is still running when the deadline has passed
+and the caller is looking (`latency > max T b`, or it never answers) is cut at `max T b` — at `T`
+for a caller already waiting, at its first poll `b` for one that comes later — and that is
+strictly earlier than `b + T` (where a timer started at the first poll would fire) whenever both
+are positive; it is also the only observation the spec accepts there. -/
+theorem C09_deadline_counts_from_dispatch (T b : Nat) (latency : Option Nat)
+    (h : ∀ l, latency = some l → max T b < l) :
+    latePoll (some T) latency b = Done.timeout (max T b) ∧
+    Spec.Timeout.lateExpected' (some T) latency b = [Spec.Timeout.Expect.cancelled (max T b)] ∧
+    (0 < T → 0 < b → max T b < b + T) := by
+  refine ⟨?_, ?_, by omega⟩
+  · cases latency with
+    | none =>
+      by_cases h2 : T ≤ b <;> simp [latePoll, lateCut, answer, Done.readyBy, cutAt, h2] <;> omega
+    | some l =>
+      have hl := h l rfl
+      have h1 : ¬ l ≤ b := by omega
+      have h4 : T < l := by omega
+      by_cases h2 : T ≤ b <;>
+        simp [latePoll, lateCut, answer, Done.readyBy, cutAt, h1, h2, h4] <;> omega
+  · cases latency with
+    | none => simp [Spec.Timeout.lateExpected', later_eq]
+    | some l =>
+      have hl := h l rfl
+      have h3 : ¬ l ≤ T := by omega
+      simp [Spec.Timeout.lateExpected', later_eq, h3, hl]
+
+/-- Nothing is observed before the caller looks: every completion time is at least `b`. -/
+theorem C09_late_poll_not_before_first_poll (T latency : Option Nat) (b t : Nat)
+    (h : latePoll T latency b = Done.inner t ∨ latePoll T latency b = Done.timeout t) : b ≤ t := by
+  cases T with
+  | none =>
+    cases latency with
+    | none => simp [latePoll, lateCut, answer, Done.readyBy] at h
+    | some l =>
+      by_cases h1 : l ≤ b <;>
+        simp [latePoll, lateCut, answer, Done.readyBy, Done.pickedUpAt, h1] at h <;> omega
+  | some m =>
+    cases latency with
+    | none =>
+      by_cases h2 : m ≤ b <;> simp [latePoll, lateCut, answer, Done.readyBy, cutAt, h2] at h <;> omega
+    | some l =>
+      by_cases h1 : l ≤ b <;> by_cases h2 : m ≤ b <;> by_cases h4 : m < l <;>
+        simp [latePoll, lateCut, answer, Done.readyBy, Done.pickedUpAt, cutAt, h1, h2, h4] at h <;>
+        omega
+
+/-- Client stack (a `Channel` used through `poll_ready` / `call`, the response future first
+polled at `b`) against a peer that enforces nothing and answers at once after `l`, or never. -/
+theorem C09_late_client_cutoff_plain_peer (caller endpoint l : Option Nat) (b : Nat) :
+    asExpect (clientCallLate caller endpoint (plainPeer l) b) ∈
+      Spec.Timeout.lateExpected [caller, endpoint] l b := by
+  have key := C09_late_stage_meets_spec caller endpoint l b
+  have hd : (plainPeer l).headDone = answer l := by cases l <;> rfl
+  unfold clientCallLate
+  rw [hd]
+  cases l with
+  | none =>
+    -- never answers: the stage's result is never `.inner`
+    cases hs : lateStage caller endpoint (answer none) b with
+    | inner t =>
+      exfalso
+      cases he : effective caller endpoint with
+      | none => simp [lateStage, lateCut, answer, Done.readyBy, he] at hs
+      | some m =>
+        by_cases h2 : m ≤ b <;> simp [lateStage, lateCut, answer, Done.readyBy, cutAt, he, h2] at hs
+    | timeout t => rw [hs] at key; exact key
+    | pending => rw [hs] at key; exact key
+  | some l =>
+    cases hs : lateStage caller endpoint (answer (some l)) b with
+    | inner t =>
+      have ht : max t l = t := by
+        cases he : effective caller endpoint with
+        | none =>
+          by_cases h1 : l ≤ b <;>
+            simp [lateStage, lateCut, answer, Done.readyBy, Done.pickedUpAt, he, h1] at hs <;> omega
+        | some m =>
+          by_cases h1 : l ≤ b <;> by_cases h2 : m ≤ b <;> by_cases h4 : m < l <;>
+            simp [lateStage, lateCut, answer, Done.readyBy, Done.pickedUpAt, cutAt, he, h1, h2, h4]
+              at hs <;> omega
+      rw [hs] at key
+      simpa [plainPeer, ht] using key
+    | timeout t => rw [hs] at key; exact key
+    | pending => rw [hs] at key; exact key
+
+private theorem clientLate_tonic (c s e l : Option Nat) (b : Nat) :
+    clientCallLate c e (tonicPeer c s l) b = lateCut (effective c e) (serverStack c s l) b := by
+  unfold clientCallLate tonicPeer lateStage
+  cases serverStack c s l with
+  | pending =>
+    cases he : effective c e with
+    | none => simp [Reply.headDone, lateCut, Done.readyBy]
+    | some x => by_cases h : x ≤ b <;> simp [Reply.headDone, lateCut, Done.readyBy, cutAt, h]
+  | inner t =>
+    cases he : effective c e with
+    | none => by_cases h1 : t ≤ b <;> simp [Reply.headDone, lateCut, Done.readyBy, Done.pickedUpAt, h1] <;> omega
+    | some x =>
+      by_cases h1 : t ≤ b <;> by_cases h : x ≤ b <;> by_cases h2 : x < t <;>
+        simp [Reply.headDone, lateCut, Done.readyBy, Done.pickedUpAt, cutAt, h, h1, h2] <;> omega
+  | timeout t =>
+    cases he : effective c e with
+    | none => by_cases h1 : t ≤ b <;> simp [Reply.headDone, lateCut, Done.readyBy, Done.pickedUpAt, h1]
+    | some x =>
+      by_cases h1 : t ≤ b <;> by_cases h : x ≤ b <;> by_cases h2 : x < t <;>
+        simp [Reply.headDone, lateCut, Done.readyBy, Done.pickedUpAt, cutAt, h, h1, h2]
+
+private theorem lateCut_cut_spec (S E l : Option Nat) (b : Nat) :
+    asExpect (lateCut E (cutAt S (answer l)) b) ∈ Spec.Timeout.lateExpected' (effective E S) l b := by
+  cases S with
+  | none =>
+    have : effective E none = E := by cases E <;> rfl
+    rw [this]
+    cases E <;> exact C09_late_poll_meets_spec _ l b
+  | some s =>
+    unfold Spec.Timeout.lateExpected' Spec.Timeout.later
+    cases E with
+    | none =>
+      cases l with
+      | none => by_cases h2 : s ≤ b <;> simp [lateCut, answer, Done.readyBy, Done.pickedUpAt, cutAt, asExpect, effective, h2]
+      | some l =>
+        by_cases h1 : l ≤ b <;> by_cases h2 : s ≤ b <;> by_cases h4 : s < l <;>
+        by_cases h8 : b < l <;> by_cases h10 : l ≤ s <;>
+        first
+        | (exfalso; omega)
+        | (simp [lateCut, answer, Done.readyBy, Done.pickedUpAt, cutAt, asExpect, effective, h1, h2, h4, h8, h10] <;> omega)
+    | some e =>
+      cases l with
+      | none =>
+        by_cases h2 : s ≤ b <;> by_cases h3 : e ≤ b <;> by_cases h6 : e < s <;> by_cases h7 : e ≤ s <;>
+        first
+        | (exfalso; omega)
+        | (simp [lateCut, answer, Done.readyBy, Done.pickedUpAt, cutAt, asExpect, effective, Nat.min_def, h2, h3, h6, h7] <;> omega)
+      | some l =>
+        by_cases h1 : l ≤ b <;> by_cases h2 : s ≤ b <;> by_cases h3 : e ≤ b <;>
+        by_cases h4 : s < l <;> by_cases h5 : e < l <;> by_cases h6 : e < s <;> by_cases h7 : e ≤ s <;>
+        by_cases h8 : b < l <;> by_cases h9 : l ≤ e <;> by_cases h10 : l ≤ s <;>
+        first
+        | (exfalso; omega)
+        | (simp [lateCut, answer, Done.readyBy, Done.pickedUpAt, cutAt, asExpect, effective, Nat.min_def, h1, h2, h3, h4, h5, h6, h7, h8, h9, h10] <;> omega)
+
+/-- tonic on both ends, the caller first polling at `b`: the server's timer (shorter of header and
+`Server::timeout`, running from the request's arrival) and the client's (shorter of header and
+`Endpoint::timeout`, running from dispatch) together give one of the observations the spec
+accepts for the shortest of the three deadlines. -/
+theorem C09_late_end_to_end (caller server endpoint handler : Option Nat) (b : Nat) :
+    asExpect (endToEndLate caller server endpoint handler b) ∈
+      Spec.Timeout.lateExpected [caller, server, endpoint] handler b := by
+  rw [endToEndLate, clientLate_tonic, serverStack, stage, Spec.Timeout.lateExpected, shortest_triple]
+  exact lateCut_cut_spec _ _ handler b
+
+/-- NOT the code (what seed C09d turns it into): were the timer created at the caller's first
+poll, the spec would be violated. -/
+def TimerFromFirstPollMeetsSpec : Prop :=
+  ∀ (T latency : Option Nat) (b : Nat),
+    asExpect (lateCutLazy T (answer latency) b) ∈ Spec.Timeout.lateExpected' T latency b
+
+/-- Witness: timeout 100, the peer answers after 350, the caller first polls at 300 — a timer
+armed at 300 fires at 400, the answer at 350 wins and the call completes although its deadline
+passed 250 earlier; the spec demands CANCELLED at 300. -/
+theorem C09_timer_from_first_poll_fails : ¬ TimerFromFirstPollMeetsSpec := by
+  intro h
+  have := h (some 100) (some 350) 300
+  revert this
+  decide
+
 /-! ### What travels -/
 
 private theorem chosen_spec (d : Nat) (vu : Nat × U) (h : encodeVU d = some vu) :
@@ -410,5 +638,10 @@ example : Spec.Timeout.denote [43, 53, 83] = none ∧
     stage (headerTimeout [[43, 53, 83]]) (some 7) (answer (some 5)) = Done.inner 5 := by decide
 example : configured [.timeout 5, .layer, .other, .connectTimeout 1] = some 5 := by decide
 example : setTimeouts [10000000000, 5] = some [[53, 110]] := by decide
+example : latePoll (some 100) (some 350) 300 = Done.timeout 300 :=
+  (C09_deadline_counts_from_dispatch 100 300 (some 350) (by intro l h; cases h; decide)).1
+example : latePoll (some 100) (some 250) 300 = Done.inner 300 := by decide   -- the window: either is acceptable
+example : lateCutLazy (some 100) (answer (some 350)) 300 = Done.inner 350 := by decide
+example : endToEndLate none (some 100) none (some 350) 300 = Done.timeout 300 := by decide
 
 end C09
